@@ -1004,6 +1004,11 @@ def _run_tasks(spec: Dict[str, Any], ctx: Ctx) -> None:
                     exc = type(ex).__name__
                 ctx.switch(cid)
                 ctx.log.add("done", cid, exc or len(vals))
+                if exc and ref.all_exc and exc != ref.all_exc:
+                    # both raise; the reference is a *synchronous* isolated evaluation, and which of two lurking
+                    # errors surfaces first in the async twin is C08's question, not this property's
+                    ctx.count("probe.async_raises_other_class_than_sync_reference")
+                    return
                 w.check_all(desc, [("?", v) for v in vals], exc, ref.for_findall(), True)
                 return
             pos = 0
@@ -1040,6 +1045,9 @@ def _run_tasks(spec: Dict[str, Any], ctx: Ctx) -> None:
                 exc = type(ex).__name__
             ctx.switch(cid)
             ctx.log.add("done", cid, exc or pos)
+            if exc and ref.exc and exc != ref.exc:
+                ctx.count("probe.async_raises_other_class_than_sync_reference")  # see above
+                return
             _ended(desc, pos, exc, ref, lenient)
         finally:
             in_eval[cid] = False
